@@ -143,7 +143,9 @@ def timeout_guarded(fn) -> bool:
     found = []
 
     def has_int_call(node) -> bool:
-        return any(isinstance(n, ast.Call) and isinstance(n.func, ast.Name) and n.func.id == "int" for n in ast.walk(node))
+        # int(<text of the response header>[7:]) — not the int(timeout.total_seconds()) of the request builder
+        return any(isinstance(n, ast.Call) and isinstance(n.func, ast.Name) and n.func.id == "int" and len(n.args) == 1
+                   and isinstance(n.args[0], ast.Subscript) for n in ast.walk(node))
 
     def visit(node, guarded: bool):
         if isinstance(node, ast.Try):
